@@ -47,6 +47,16 @@ CASES = [
     ("harmless: spent outputs recorded through a loop", "C14", "skepticoin/wallet.py",
      "                wallet.spent_transaction_outputs.update(input.output_reference for input in inputs)",
      "                wallet.spent_transaction_outputs.update([input.output_reference for input in inputs])", 0),
+    ("harmless: future-timestamp check before proof-of-work", "C05", "skepticoin/consensus.py",
+     "    validate_proof_of_work(block_header.hash(), block_header.summary.target)\n\n"
+     "    if block_header.summary.timestamp > current_timestamp + MAX_FUTURE_BLOCK_TIME:\n"
+     "        raise ValidateBlockHeaderError(\"Block timestamp in the future\")",
+     "    if block_header.summary.timestamp > current_timestamp + MAX_FUTURE_BLOCK_TIME:\n"
+     "        raise ValidateBlockHeaderError(\"Block timestamp in the future\")\n\n"
+     "    validate_proof_of_work(block_header.hash(), block_header.summary.target)", 0),
+    ("harmless: spent output looked up once more", "C01", "skepticoin/consensus.py",
+     "        previous_output = unspent_transaction_outs[input.output_reference]\n\n        # bitcoin has the concept",
+     "        previous_output = coinstate.unspent_transaction_outs_by_hash[at_hash][input.output_reference]\n\n        # bitcoin has the concept", 0),
     ("harmless: merkle pairs hashed via a helper variable", "C17", "skepticoin/merkletree.py",
      "            new_list.append(sha256d(chunk[0] + chunk[1]))",
      "            pair = chunk[0] + chunk[1]\n            new_list.append(sha256d(pair))", 0),
